@@ -2083,6 +2083,8 @@ def np_unique(I, args, kwargs, node):
     tag = "unique(%s)@%s:%s" % (x.name or x.meta.get("ident") or "?", I.cur_mod.name, node.lineno)
     ident = "unique@%s:%s" % (I.cur_mod.name, node.lineno)
     n = alg.fn("nunique", x.val if isinstance(x.val, Expr) else alg.sym(tag), integer=True, pos=True)
+    if x.shape is not None and all(dim_is_one(d) for d in x.shape):
+        n = ONE  # one value has one distinct value
     U = Arr((n,), alg.fn("elem", alg.sym(tag)), x.dtype, {"sorted_unique": True, "unique_of": x, "ident": ident})
     if isinstance(x.val, Expr):
         I.facts.refine(U.val, I.facts.possible(x.val))  # the distinct values have the sign of the values
